@@ -8,38 +8,10 @@ whatever its write row uses, and the obligation is that the read side uses the s
 whole-tree normal form `normG` is tied to the code by the `gobRoundTrip` correspondence op.
 -/
 import APModel.Props.C01
+import APModel.Theory.DeepGob
 
 namespace APModel.Codec
 open APModel APModel.Generated
-
-def gobEntries : List (String × String × String) := [
-  ("Object", "Object.GobEncode", "Object.GobDecode"),
-  ("Actor", "Actor.GobEncode", "Actor.GobDecode"),
-  ("Activity", "Activity.GobEncode", "Activity.GobDecode"),
-  ("IntransitiveActivity", "IntransitiveActivity.GobEncode", "IntransitiveActivity.GobDecode"),
-  ("Question", "Question.GobEncode", "Question.GobDecode"),
-  ("Collection", "Collection.GobEncode", "Collection.GobDecode"),
-  ("OrderedCollection", "OrderedCollection.GobEncode", "OrderedCollection.GobDecode"),
-  ("CollectionPage", "CollectionPage.GobEncode", "CollectionPage.GobDecode"),
-  ("OrderedCollectionPage", "OrderedCollectionPage.GobEncode", "OrderedCollectionPage.GobDecode"),
-  ("Place", "Place.GobEncode", "Place.GobDecode"),
-  ("Profile", "Profile.GobEncode", "Profile.GobDecode"),
-  ("Relationship", "Relationship.GobEncode", "Relationship.GobDecode"),
-  ("Tombstone", "Tombstone.GobEncode", "Tombstone.GobDecode"),
-  ("Link", "Link.GobEncode", "Link.GobDecode"),
-  ("Source", "Source.GobEncode", "Source.GobDecode"),
-  ("PublicKey", "PublicKey.GobEncode", "PublicKey.GobDecode"),
-  ("Endpoints", "Endpoints.GobEncode", "Endpoints.GobDecode")]
-
-def gobW (name : String) : List WRow :=
-  ((gobEntries.find? (fun e => e.1 == name)).map (fun e => wRows gobMap e.2.1)).getD []
-def gobR (name : String) : List RRow :=
-  ((gobEntries.find? (fun e => e.1 == name)).map (fun e => rRowsG gobUnmap e.2.2)).getD []
-
-/-- the struct's fields with the key the gob writer files each one under -/
-def gobSchema (name : String) : Schema :=
-  (schemaOf name).map fun (f, kind, _) =>
-    (f, kind, (((gobW name).find? (fun w => w.field == f)).map (·.term)).getD "?no write row")
 
 /-- For each struct: the regenerated gob write and read tables agree with each other and with the struct
 definition (every declared field is written with an adequate guard and read back from the same key by
@@ -87,3 +59,38 @@ example : (decodeLevel (gobR "Place") (encodeLevel (gobW "Place")
   · cases h
 
 end APModel.Codec
+
+namespace APModel.DeepGob
+open APModel APModel.Codec APModel.Generated
+
+/-! ### the whole-tree theorem on the deep gob model -/
+
+/-- every declared field of every struct and sub-record meets gob write and read rows that fit together in
+the deep sense: an adequate guard, a read row for the same key that reads into the same field, and an
+encoder/decoder pair whose composition the proof covers -/
+theorem C03_deep_tables :
+    gobEntries.all (fun e => (schemaOf e.1).all (fun f => coherentFieldG envGob e.1 f.1)) = true := by
+  decide +kernel
+
+/-- C03 on whole trees, for the code's own tables: for EVERY well-formed value tree — any struct, any
+properties, IRIs, IRI lists, embedded objects and links by value or by pointer, item lists, language values
+with any tags, instants with nanoseconds and zones, negative numbers, sub-records, nested to any depth —
+GobDecode(GobEncode(x)) is x in C03's normal form (struct values as pointers, nothing else changed). -/
+theorem C03_deep (x : Item) (h : wfItem envGob x = true) : roundTrip envGob x = normG x :=
+  deep_roundtrip envGob x h
+
+/-! non-vacuity: a Listen activity with a nanosecond instant in a zone, a negative duration, an IRI list and an
+embedded Place (by value) with negative coordinates -/
+def samplePlace : Item := .node .place false
+  (.cons "ID" (.str (nm "https://example.com/p/1")) (.cons "Type" (.str (nm "Place"))
+  (.cons "Latitude" (.dec6 (-45500000)) (.cons "Longitude" (.dec6 (-73600000)) (.cons "Units" (.str (nm "km")) .nil)))))
+def sampleListen : Item := .node .activity true
+  (.cons "ID" (.str (nm "https://example.com/l/1")) (.cons "Type" (.str (nm "Listen"))
+  (.cons "Actor" (.item (.iris [nm "https://example.com/~a", nm "https://example.com/~b"]))
+  (.cons "Object" (.item samplePlace) (.cons "Published" (.time 1700000000 123456789 (-18000))
+  (.cons "Duration" (.dur (-90061000000000)) (.cons "Name" (.nlv [(nm "en", nm "x"), (nm "en", nm "y")]) .nil)))))))
+theorem sampleListen_wf : wfItem envGob sampleListen = true := by decide +kernel
+example : roundTrip envGob sampleListen = normG sampleListen := C03_deep _ sampleListen_wf
+
+end APModel.DeepGob
+
